@@ -116,11 +116,15 @@ def lit_pairs(pairs):
     return tuple((f, L(v)) for f, v in pairs)
 
 
+# instances that exist (are registered) but are NOT members of the supplied domain: they must never show up
+ELSEWHERE = ("ELSE", "Base", tuple(k for k in MEMBER_KINDS if k[0] == "cls"))
+
+
 def wspec_of(case):
     if case[0] == "single":
-        return (("DM", "Base", (MEMBER_KINDS[case[1]],)),)
+        return (ELSEWHERE, ("DM", "Base", (MEMBER_KINDS[case[1]],)))
     if case[0] == "tinytype":
-        return (("DM", "Base", tuple(MEMBER_KINDS[i] for i in case[1])),)
+        return (ELSEWHERE, ("DM", "Base", tuple(MEMBER_KINDS[i] for i in case[1])))
     return WSPEC
 
 
